@@ -187,7 +187,8 @@ func threeNodeSeed(m int, mid [][]byte) (ops []Op, fillers [][]byte) {
 	rem(lo(2))
 	rem(hi(nh))
 	rem(hi(nh - 1))
-	fillers = [][]byte{lo(1), lo(split - 1), hi(split - len(mid) + 1), hi(nh - 2), hi(nh)}
+	// probes among the fillers: one that was removed again, one that stays in A, one that stays in C
+	fillers = [][]byte{lo(1), lo(split - 1), hi(nh - 2)}
 	return
 }
 
